@@ -5,11 +5,11 @@ package main
 // ops:   case N                          fresh swamp
 //        set KEY TYPE VAL C U E          Gateway.Set of one key; TYPE ∈ c07Types; VAL is the rank of the
 //                                        value inside its type (see c07Value); C/U/E = CreatedAt /
-//                                        UpdatedAt / ExpiredAt in seconds, 0 = field absent
+//                                        UpdatedAt / ExpiredAt in nanoseconds, 0 = field absent
 //        del KEY                         Gateway.Delete
 //        q IDX ORD FROM LIMIT FT TT VIA  Gateway.GetByIndex (VIA=u) or GetByIndexStream without
 //                                        filters (VIA=s); IDX ∈ key|created|updated|expire|<value type>;
-//                                        ORD ∈ asc|desc; FT/TT seconds or '-'
+//                                        ORD ∈ asc|desc; FT/TT nanoseconds or '-'
 // reply: ok | err                        for set / del
 //        r k1,k2,…  | err | nilnil       for q: the keys exactly in the order the gateway returned them
 //
@@ -110,11 +110,15 @@ func c07Rank(rng *rand.Rand, typ string) int64 {
 	return v
 }
 
+// timestamps are nanoseconds since the epoch: whole seconds 1..9 plus a nanosecond part that is
+// usually 0 (so that equal timestamps stay frequent) and sometimes 1 or 999999999
+var c07Nanos = []int64{0, 0, 0, 0, 1, 999999999}
+
 func c07TS(rng *rand.Rand, pAbsent int) int64 {
 	if rng.Intn(100) < pAbsent {
 		return 0
 	}
-	return int64(1 + rng.Intn(9))
+	return int64(1+rng.Intn(9))*1000000000 + c07Nanos[rng.Intn(len(c07Nanos))]
 }
 
 func c07GenQuery(rng *rand.Rand, w *bufio.Writer, idx string) {
@@ -130,10 +134,10 @@ func c07GenQuery(rng *rand.Rand, w *bufio.Writer, idx string) {
 	ft, tt := "-", "-"
 	if rng.Intn(5) < 3 {
 		if rng.Intn(4) != 0 {
-			ft = strconv.Itoa(rng.Intn(11))
+			ft = strconv.FormatInt(int64(rng.Intn(11))*1000000000+c07Nanos[rng.Intn(len(c07Nanos))], 10)
 		}
 		if rng.Intn(4) != 0 {
-			tt = strconv.Itoa(1 + rng.Intn(11))
+			tt = strconv.FormatInt(int64(1+rng.Intn(11))*1000000000+c07Nanos[rng.Intn(len(c07Nanos))], 10)
 		}
 	}
 	via := []string{"u", "s"}[rng.Intn(2)]
@@ -163,7 +167,9 @@ func c07Gen(rng *rand.Rand, tier string, w *bufio.Writer) {
 	// 8: windows, paging, ties on a sound index
 	fmt.Fprintln(w, "case 8\nset k1 i64 1 3 0 0\nset k2 i64 2 3 0 0\nset k3 i64 3 5 0 0\nset k4 i64 3 7 0 0\nq created asc 0 0 3 7 u\nq created desc 0 0 3 7 u\nq created asc 1 2 - 8 u\nq created desc 1 1 4 - s\nq created asc 0 0 7 3 u\nq key desc 1 2 - - u\nq expire asc 0 0 - - u")
 
-	for c := 9; c < cases; c++ {
+	// 9: sub-second parts decide: records at 3s, 3s+1ns, 3s+999999999ns, 4s; windows on those instants
+	fmt.Fprintln(w, "case 9\nset k1 i64 1 3000000000 0 0\nset k2 i64 2 3000000001 0 0\nset k3 i64 3 3999999999 0 0\nset k4 i64 4 4000000000 0 0\nset k5 i64 5 3000000000 0 0\nq created asc 0 0 3000000001 4000000000 u\nq created desc 0 0 3000000000 3999999999 u\nq created asc 0 0 3000000000 3000000001 s\nq created desc 0 0 3999999999 - u\nq created asc 0 0 - 3000000001 u")
+	for c := 10; c < cases; c++ {
 		fmt.Fprintf(w, "case %d\n", c)
 		theme := rng.Intn(10)
 		// type palette of the case
@@ -244,7 +250,7 @@ func c07TSpb(v int64) *timestamppb.Timestamp {
 	if v == 0 {
 		return nil
 	}
-	return &timestamppb.Timestamp{Seconds: v}
+	return &timestamppb.Timestamp{Seconds: v / 1000000000, Nanos: int32(v % 1000000000)}
 }
 
 func c07OptTS(s string) (*timestamppb.Timestamp, bool) {
@@ -256,7 +262,7 @@ func c07OptTS(s string) (*timestamppb.Timestamp, bool) {
 		return nil, false
 	}
 	// an explicit zero bound is a real bound (the Unix epoch), not "absent"
-	return &timestamppb.Timestamp{Seconds: v}, true
+	return &timestamppb.Timestamp{Seconds: v / 1000000000, Nanos: int32(v % 1000000000)}, true
 }
 
 func c07Run(in *bufio.Scanner, w *bufio.Writer) {
